@@ -284,7 +284,30 @@ func (c *EvalCtx) Eval(e *Expr) EV {
 			if skolem {
 				return EV{V: r, T: tBool}
 			}
-			return EV{V: tb.Forall(kv, r), T: tBool}
+			q := tb.Forall(kv, r)
+			// hypothesis-side quantifier: also state it in "shifted" form for every index expression k+c in the
+			// body (forall j in lo+c..hi+c :: body[k := j-c]) - equivalent, but E-matching then finds X[j] directly
+			for _, off := range indexOffsets(e.Args[2], e.Var) {
+				off := off
+				var extra *Term
+				if err := x.guard("shifted quantifier", func() {
+					c0 := c.toIndex(c.Eval(off))
+					jv := tb.BoundVar(e.Var+"s", BV(64))
+					nc2 := c.clone()
+					nc2.names = map[string]EV{}
+					for k, v := range c.names {
+						nc2.names[k] = v
+					}
+					nc2.names[e.Var] = EV{V: tb.BVBin("bvsub", jv, c0), T: tInt}
+					rng2 := tb.And(tb.BVCmp("bvsle", tb.BVBin("bvadd", lo, c0), jv), tb.BVCmp("bvslt", jv, tb.BVBin("bvadd", hi, c0)),
+						tb.BVCmp("bvsle", tb.BVi(64, -(1<<40)), c0), tb.BVCmp("bvsle", c0, tb.BVi(64, 1<<40)),
+						tb.BVCmp("bvsle", tb.BVi(64, -(1<<40)), lo), tb.BVCmp("bvsle", hi, tb.BVi(64, 1<<40)))
+					extra = tb.Forall(jv, tb.Implies(rng2, nc2.Bool(e.Args[2])))
+				}); err == nil && extra != nil {
+					q = tb.And(q, extra)
+				}
+			}
+			return EV{V: q, T: tBool}
 		}
 		r := tb.And(rng, body)
 		if skolem {
@@ -997,4 +1020,59 @@ func (c *EvalCtx) specCall(sf *SpecFun, args []*Expr, e *Expr) EV {
 	}
 	r.T = rt
 	return r
+}
+
+// indexOffsets returns the distinct expressions c such that the body indexes something with v+c or c+v.
+func indexOffsets(body *Expr, v string) []*Expr {
+	var out []*Expr
+	seen := map[string]bool{}
+	mentions := func(e *Expr) bool {
+		found := false
+		var w func(e *Expr)
+		w = func(e *Expr) {
+			if e == nil || found {
+				return
+			}
+			if e.Op == "ident" && e.Name == v {
+				found = true
+				return
+			}
+			for _, a := range e.Args {
+				w(a)
+			}
+		}
+		w(e)
+		return found
+	}
+	var walk func(e *Expr)
+	walk = func(e *Expr) {
+		if e == nil {
+			return
+		}
+		if e.Op == "index" {
+			ix := e.Args[1]
+			if ix.Op == "bin" && ix.Name == "+" {
+				var off *Expr
+				if ix.Args[0].Op == "ident" && ix.Args[0].Name == v && !mentions(ix.Args[1]) {
+					off = ix.Args[1]
+				} else if ix.Args[1].Op == "ident" && ix.Args[1].Name == v && !mentions(ix.Args[0]) {
+					off = ix.Args[0]
+				}
+				if off != nil && !seen[off.String()] {
+					seen[off.String()] = true
+					out = append(out, off)
+				}
+			}
+		}
+		if e.Op == "forall" || e.Op == "exists" {
+			if e.Var == v {
+				return
+			}
+		}
+		for _, a := range e.Args {
+			walk(a)
+		}
+	}
+	walk(body)
+	return out
 }
